@@ -42,3 +42,17 @@ def _c01_truncated_lstsq():
 
 
 WITNESSES["c01_truncated_lstsq"] = _c01_truncated_lstsq
+
+
+def _c20_weights_shape():
+    from verde.base.utils import check_fit_input
+
+    c = (np.zeros((2, 3)), np.zeros((2, 3)))
+    try:
+        check_fit_input(c, np.arange(6.0).reshape(2, 3), np.arange(6.0).reshape(3, 2))
+    except ValueError:
+        return False, "now rejected"
+    return True, "accepted"
+
+
+WITNESSES["c20_weights_shape"] = _c20_weights_shape
